@@ -288,7 +288,7 @@ func vxRunCfgA(rep *mc.Report, dir string, cfg vxCfgA, deadline time.Time) {
 			s.File, s.Model, s.Raw = b, ma, ra
 			if sample == nil && len(path) == 2 && ((cfg.Sample == 1 && cls != "") || (cfg.Sample == 2 && op.Op == "load" && cls == "" && res.Err == nil && len(res.Rpm)+len(res.Pwm) > 2) || (cfg.Sample == 3 && op.Op == "delete" && path[1] != sym-1 && alpha[path[0]].Op == "save" && alpha[path[1]].Op == "corrupt")) {
 				sample = map[string]any{"configuration": cfg.Name, "history": vxOpsString(toOps(path, sym)), "model_after": ma.String(), "state_key": ra.Key(),
-					"load_result": fmt.Sprintf("err=%v entries=%d", res.Err, len(res.Rpm)+len(res.Pwm))}
+					"last_op_returned": fmt.Sprintf("err=%v, %d map entries", res.Err, len(res.Rpm)+len(res.Pwm))}
 			}
 			return ra.Key(), nil
 		},
